@@ -281,6 +281,8 @@ func runHarness(w *World, solver *Solver, pkgName, harness string, params map[st
 		in.trackShared = false
 		in.mapOrderSym = false
 		in.pathShared = nil
+		in.pathSync = nil
+		in.lockDepth = 0
 		func() {
 			defer func() {
 				in.rollback()
